@@ -81,12 +81,15 @@ def check_regex(chk: Check) -> None:
         path.write_bytes(text.encode())
         all_results = [_result(Path("doc.txt"), i, fid=f"L{i}.{k}") for i, ln in enumerate(doc, 1) for k in range(1, ln["f"] + 1)]
         mode = sc["mode"]
+        # every second document is edited with a pattern whose match reaches the end of the line (`\s*$` also matches
+        # the line terminator when the terminator is handed to the regular expression: the line would be joined with the next)
+        pat, repl = (r"# line (\d+)\s*$", r"# LINE \1") if n % 2 == 0 else ("hello", REPL)
         if mode == "plain":
-            pipe, results, fc_results = RegexTransformerPipeline("hello", REPL, "edit"), None, all_results
+            pipe, results, fc_results = RegexTransformerPipeline(pat, repl, "edit"), None, all_results
         elif mode == "sast":
-            pipe, results, fc_results = SastRegexTransformerPipeline("hello", REPL, "edit"), all_results, all_results
+            pipe, results, fc_results = SastRegexTransformerPipeline(pat, repl, "edit"), all_results, all_results
         else:
-            pipe, results, fc_results = SastRegexTransformerPipeline("hello", REPL, "edit"), [], []
+            pipe, results, fc_results = SastRegexTransformerPipeline(pat, repl, "edit"), [], []
         if mode == "sast" and not all_results:
             continue  # SAST use with results = None is not a SAST use; with an empty list it is the "noresults" mode
         fc = FileContext(root, path, [], [], fc_results)
@@ -118,7 +121,7 @@ def check_regex(chk: Check) -> None:
         want_unfixed = sorted(f"L{i}.{k}" for i, k in exp["unfixed"])
         if got_unfixed != want_unfixed:
             problems.append(f"unfixed findings {got_unfixed}, expected {want_unfixed}")
-        want_lines = [(ln.replace("hello", REPL) if i in exp["edited"] else ln) for i, ln in enumerate(lines, 1)]
+        want_lines = [((ln.replace("hello", REPL) if n % 2 else ln.replace("# line", "# LINE")) if i in exp["edited"] else ln) for i, ln in enumerate(lines, 1)]
         want_text = eol.join(want_lines) + (eol if sc["finalnl"] else "")
         if exp["writes"]:
             if after != want_text:
@@ -152,7 +155,7 @@ def run(chk: Check) -> None:
 
     c19_xml.check_xml(chk)
     chk.assumptions += [
-        "regex: the pattern is a plain word, one edit per matching line",
+        "regex: the pattern is a plain word or (every second document) a pattern ending in `\\s*$`; one edit per matching line; the replacement holds no line break",
         "XML: documents are compared as expat event lists; whitespace-only text between elements is insignificant; the only DTD internal subset generated declares a default attribute (entity declarations are refused by the hardened parser); documents are UTF-8 or ISO-8859-1",
     ]
 
